@@ -368,3 +368,65 @@ def connect_cases():
     if state.snapshot(g) != b:
         return "second connect changed the Gfa"
     return True
+
+
+def same_id_cases():
+    """real group lines sharing an identifier: same type merges (stored items first), another type is refused, contradicting tags are
+    refused with the Gfa unchanged"""
+    from bounded import state
+    base = ["H\tVN:Z:2.0", "S\tA\t8\t*", "S\tB\t8\t*", "S\tC\t8\t*", "E\te1\tA+\tB+\t6\t8$\t0\t2\t*", "E\te2\tB+\tC+\t6\t8$\t0\t2\t*"]
+    for first, second, want in (("O\tg\tA+ B+\txx:i:1", "O\tg\tC+\tyy:Z:q", ["A+", "B+", "C+"]), ("U\tg\tA B\txx:i:1", "U\tg\tC e1", ["A", "B", "C", "e1"]),
+                                ("O\tg\tA+", "U\tg\tB", None), ("U\tg\tA", "O\tg\tB+", None), ("S\tg\t8\t*", "U\tg\tB", None),
+                                ("O\tg\tA+ B+\txx:i:1", "O\tg\tC+\txx:i:2", None), ("U\tg\tA\txx:i:1", "U\tg\tB\txx:i:2", None)):
+        g = gfapy.Gfa(base + [first], vlevel=1)
+        before = state.snapshot(g)
+        try:
+            g.add_line(second)
+            ok = True
+        except gfapy.NotUniqueError:
+            ok = False
+        except Exception as e:
+            return "%r then %r raised %s" % (first, second, type(e).__name__)
+        if want is None:
+            if ok:
+                return "%r then %r was merged" % (first, second)
+            if state.snapshot(g) != before:
+                return "%r then %r refused but the Gfa changed" % (first, second)
+        else:
+            if not ok:
+                return "%r then %r refused" % (first, second)
+            items = [str(x) if first[0] == "O" else x.name for x in g.line("g").items]
+            if items != want:
+                return "%r then %r: items %s, expected %s" % (first, second, items, want)
+            if sorted(g.line("g").tagnames) != ["xx"] + (["yy"] if "yy" in second else []):
+                return "tags not united: %s" % g.line("g").tagnames
+    return True
+
+
+def path_link_direction_cases():
+    """paths over stored links in direct and complement form (distinct segments, self links, hairpins with a CIGAR that is not its own
+    complement), link read before the path: the recorded link is the stored one and the direction is '-' exactly for the complement form;
+    mixed paths: the direction of a step does not depend on the step before it"""
+    def compl(c):
+        import re
+        ops = re.findall(r"(\d+)([MIDP])", c)
+        return "".join("%s%s" % (n, {"I": "D", "D": "I"}.get(o, o)) for n, o in reversed(ops)) if c != "*" else "*"
+    inv = {"+": "-", "-": "+"}
+    for a, oa, b, ob in (("x", "+", "y", "+"), ("x", "-", "y", "+"), ("x", "+", "x", "+"), ("x", "+", "x", "-"), ("x", "-", "x", "+")):
+        for cg in ("2M1I", "3M", "1D2M1I1M"):
+            link = "L\t%s\t%s\t%s\t%s\t%s" % (a, oa, b, ob, cg)
+            segs = ["S\t%s\t*" % n for n in sorted({a, b})]
+            for form, pl in (("+", "P\tp\t%s%s,%s%s\t%s" % (a, oa, b, ob, cg)), ("-", "P\tp\t%s%s,%s%s\t%s" % (b, inv[ob], a, inv[oa], compl(cg)))):
+                if (a, oa, b, ob, cg) == (b, inv[ob], a, inv[oa], compl(cg)):
+                    continue
+                g = gfapy.Gfa(segs + [link, pl], vlevel=1)
+                lk = g.line("p").links
+                if len(lk) != 1 or lk[0].line is not g.dovetails[0] or len(g.dovetails) != 1:
+                    return "%s / %s: the path does not use the stored link" % (link, pl)
+                if lk[0].orient != form:
+                    return "%s / %s: direction %s, expected %s" % (link, pl, lk[0].orient, form)
+    g = gfapy.Gfa(["S\ta\t*", "S\tb\t*", "S\tc\t*", "L\tb\t-\ta\t-\t2M", "L\tb\t+\tc\t+\t3M", "P\tp\ta+,b+,c+\t2M,3M"], vlevel=1)
+    got = [x.orient for x in g.line("p").links]
+    if got != ["-", "+"]:
+        return "mixed path a+,b+,c+ over L b - a - and L b + c +: directions %s, expected ['-', '+']" % got
+    return True
